@@ -194,6 +194,13 @@ def ini_candidates(ini):
         out += [(("base_product", None), DELETE)] + [(("base_product", k), DELETE) for k in ("name", "version", "short")] + [(("base_product", "version"), "1."), (("base_product", "version"), "1a"), (("base_product", "version"), "\u0667.x")]
     out += [(("tree", "arch"), ""), (("tree", "arch"), DELETE), (("tree", "build_timestamp"), "x"), (("tree", "build_timestamp"), "0"), (("tree", "build_timestamp"), DELETE),
             (("tree", "platforms"), DELETE)]
+    # a valid value followed by blank + ';' + anything is ONE value (the format has no inline comments): still outside the domain
+    for sec, opt in (("header", "version"), ("header", "type"), ("release", "version"), ("tree", "build_timestamp"), ("release", "is_layered")):
+        if sec in ini and opt in ini[sec] and (opt != "version" or sec != "release" or "0" <= ini[sec][opt][:1] <= "9"):      # a free-form version stays free-form
+            out += [((sec, opt), "%s ;%s" % (ini[sec][opt], tail)) for tail in ("0", " see below")] + [((sec, opt), "%s #x" % ini[sec][opt])]
+    for sec in sorted(ini):
+        if sec.startswith("variant-") or sec.startswith("addon-"):
+            out += [((sec, "type"), "%s ;bogus" % ini[sec].get("type", "variant"))]        # (ids and arches are free-form text: 'Server ;x' is an id)
     for sec in sorted(ini):
         if sec.startswith("variant-") or sec.startswith("addon-"):
             out += [((sec, None), DELETE)] + [((sec, k), DELETE) for k in ("id", "uid", "name", "type")]
